@@ -101,6 +101,14 @@ def decide_on_representatives(repo, fi, name):
     return False, f"{name}{tuple(args)!r:.120} gives {got!r:.160}, the specification {want!r:.160}"
 
 
+def trace_positions(chk, repo):
+    """C01-R9: the metadata pass evaluated on model image files (vlib/tracemodel.py): the byte ranges that come back are the
+    lines' own absolute file positions, for every line count and records_per_chunk of the grid"""
+    from .trace_rules import intact_rules
+    intact_rules(chk, repo, "C01-R9", ("descriptor", "positions"),
+                 "metadata pass on model files: the descriptor is the first 720 bytes and every line record comes back with its absolute file positions", thorough=chk.tier == "thorough")
+
+
 def normal_form_equal(fi, spec_src):
     try:
         p1, got = summarize(fi.node)
@@ -141,7 +149,8 @@ def run(chk, repo):
     chk.attempt(r2, chk, repo)
     chk.attempt(r3, chk, repo, L)
     chk.attempt(r4, chk, repo, L)
-    chk.attempt(r5, chk, repo, L)
+    chk.attempt(trace_positions, chk, repo)
+    chk.attempt(r5, chk, repo, L, covered_by="trace_positions")
     chk.attempt(r6, chk, repo, L)
     chk.attempt(r7, chk, repo)
     chk.attempt(r8, chk, repo)
@@ -644,7 +653,7 @@ def r8(chk, repo):
         same, got, want = normal_form_equal(fi, spec)
         chk.require(same, "C01-R8", f"{io.relpath}:{name}", f"{name} == specification ({want[:90]})",
                     f"{name} computes {got[:160]} but the specification is {want[:160]}", key=f"spec:{name}")
-    chunk_sizes_spec(chk, repo)
+    chk.attempt(chunk_sizes_spec, chk, repo, covered_by="trace_positions")
     # span components of compute_chunk_ranges
     cr = am.func("compute_chunk_ranges")
     ret = single_return(cr)
